@@ -80,7 +80,7 @@ class Suite:
         what = 'program seed=%d [%s] flags=%s cfg: %s' % (seed, ','.join(getattr(progs[0], 'motifs', [])), ' '.join(ptg_flags) or '-', cfg.short())
         state = {}
         if getattr(self, 'feat_fn', None):
-            feat = self.feat_fn(feat, progs, refs, cfg, e1run.placement_table(nk, cfg.ranks, cfg.place, cfg.pseed))
+            feat = self.feat_fn(feat, progs, refs, cfg, list(cfg.table) if cfg.table else e1run.placement_table(nk, cfg.ranks, cfg.place, cfg.pseed))
 
         def runner():
             outdir = os.path.join(ctx.work, 'o%d_%d_%d_%d' % (idx, vi, ci, state.get('n', 0)))
@@ -109,6 +109,7 @@ class Suite:
             return res
         viol = e1run.check_logs(refs, recs, finals, r.table, self.oracles, cfg, progs)
         res['marks'] = marks; res['recs'] = recs if getattr(self, 'keep_recs', False) else None
+        res['events'] = e1run.marks_events.pop(state['out'], [])
         self.stats['instances_checked'] += sum(len(x.inst) for x in refs)
         self.stats['edges_checked'] += sum(len(x.edges) for x in refs)
         self.stats['again_reentries'] += sum(1 for x in recs if x['ret'] == 1)
@@ -130,7 +131,12 @@ class Suite:
         ctx = self.ctx
         if feat != 'ptg' and (r.san or (not (r.stalled or r.timed_out) and (r.signal is not None or r.rc not in (0, 1)))):
             head = (r.san[0].strip().splitlines() or [''])[1 if len(r.san[0].strip().splitlines()) > 1 else 0] if r.san else ('signal %s rc %s' % (r.signal, r.rc))
-            if ctx.violation(feat + ':crash', '%s crashed: %s' % (what, head[:300]), r, files): return 'violation'
+            ak = vfcore.assert_key(r.stderr) or vfcore.assert_key(r.stdout)
+            if not ak:
+                import re as _re
+                m1 = _re.search(r'An error occurred in (MPI_\w+)', r.stderr); m2 = _re.search(r'(MPI_ERR_\w+)', r.stderr)
+                if m1 and m2: ak = 'mpi-error:%s:%s' % (m2.group(1), m1.group(1))
+            if ctx.violation(feat + ':crash' + ((':' + ak) if ak else ''), '%s crashed: %s %s' % (what, head[:300], vfcore._grep(r.stderr, 'Assertion')), r, files): return 'violation'
             return 'known'
         st = ctx.absorb(r, what, feat, files=files)
         if st == 'stalled':
